@@ -143,6 +143,26 @@ pub fn check_history(h: &History, rec: &mut Rec, which: Which) -> Result<(), Str
                     Ok(Some(reason)) => return Err(format!("step {step}: position {pos} is liquidatable ({reason}) right after a successful increase")),
                     Err(e) => return Err(format!("step {step}: health check failed after increase: {e}")),
                 }
+                // independent of the validation's own predicate: at the same prices a liquidation must not
+                // be possible (predicate under the liquidation thresholds, and a real liquidation attempt on
+                // a copy of the world). Configurations whose liquidation collateral factor is above the
+                // validation factor can make a validated position liquidatable by construction: counted.
+                let liq_factor = h.cfg.min_collateral_factor_for_liquidation.unwrap_or(h.cfg.min_collateral_factor);
+                if liq_factor <= h.cfg.min_collateral_factor {
+                    let mut p2 = w.positions[*pos];
+                    let mut m2 = w.market.clone();
+                    let ops2 = VPositionOps::new(&mut m2, &mut p2);
+                    if let Ok(Some(reason)) = ops2.check_liquidatable(&prices, true, true) {
+                        return Err(format!("step {step}: position {pos} can be liquidated ({reason}) right after a successful increase at the same prices"));
+                    }
+                    let mut wl = w.clone();
+                    if let Outcome::Decrease { liquidation: true, .. } = wl.apply(&Op::Liquidate { pos: *pos as u8 }) {
+                        return Err(format!("step {step}: a liquidation of position {pos} succeeded right after a successful increase at the same prices"));
+                    }
+                    rec.class("increase_then_liquidation_refused");
+                } else {
+                    rec.class("liquidation_factor_above_validation_factor");
+                }
                 rec.class("increase_ok");
             }
             (Outcome::Decrease { pos, report, liquidation, before: pos_before }, _) => {
@@ -277,6 +297,21 @@ pub fn position_heavy(max_ops: usize) -> impl proptest::strategy::Strategy<Value
         })
 }
 
+/// C09 histories: `position_heavy`, and in one case out of three a configuration where the negative
+/// position impact is capped much lower for ordinary orders than for liquidations (cap 0..10 bp against
+/// 50..500 bp) with a strong impact factor, so that the two caps give different remaining collateral.
+fn c09_history() -> impl proptest::strategy::Strategy<Value = History> {
+    use proptest::prelude::*;
+    (position_heavy(30), 0u8..3, 0u128..=10, 50u128..=500, 1u128..=50).prop_map(|(mut h, sel, neg_bp, liq_bp, k)| {
+        if sel == 0 {
+            h.cfg.max_negative_position_impact_factor = bp(neg_bp);
+            h.cfg.max_position_impact_factor_for_liquidations = bp(liq_bp);
+            h.cfg.position_impact = (h.cfg.position_impact.0, h.cfg.position_impact.1, h.cfg.position_impact.2.max(k * 100_000_000_000));
+        }
+        h
+    })
+}
+
 pub fn run_c07(ctx: &mut Ctx) {
     ctx.rule("cases = market configuration + prices + history (<= 30 ops) of increases, partial/full/over-size/capped decreases, collateral-only withdrawals, dust decreases, liquidation attempts, price moves and clock advances over 6 positions covering {long,short} x {long,short collateral}; oracle = after every operation (successful, or failed and reverted) each side's open interest in USD, in tokens and collateral sum per collateral token equal the sums over the position table, and a removed position is all-zero; non-trivial = history with both a partial decrease and a full close");
     let n = ctx.cases(20_000, 1_000_000);
@@ -287,10 +322,10 @@ pub fn run_c07(ctx: &mut Ctx) {
 }
 
 pub fn run_c09(ctx: &mut Ctx) {
-    ctx.rule("cases = same generator as C07 with adversarial price moves; oracle = check_liquidatable is None after every successful increase (min collateral validated) and after every decrease that leaves the position open; a successful liquidation implies the position was liquidatable under the liquidation thresholds just before (after the same fee-state update) and closes the whole position; non-trivial = history with a liquidation attempt or a partial decrease");
+    ctx.rule("cases = same generator as C07 with adversarial price moves (one case in three with a negative position impact cap of 0..10 bp for ordinary orders against 50..500 bp for liquidations and a strong impact factor); oracle = check_liquidatable is None after every successful increase (min collateral validated), and (when the liquidation collateral factor is not above the validation factor) the liquidation predicate is None and a real liquidation attempt on a copy of the world is refused; the same validation predicate holds after every decrease that leaves the position open; a successful liquidation implies the position was liquidatable under the liquidation thresholds just before (after the same fee-state update) and closes the whole position; non-trivial = history with a liquidation attempt or a partial decrease");
     ctx.assume("the searches `health*` are the model clauses (vmarket histories); the program-level clauses (liquidate on a fresh / healthy / underwater position, update_adl_state and auto_deleverage gating) are the search `gating`, executed through the real instructions in the svm-lite exchange world");
     let n = ctx.cases(20_000, 1_000_000);
-    ctx.search("health", n, || position_heavy(30), |h, rec| check_history(h, rec, Which::C09));
+    ctx.search("health", n, c09_history, |h, rec| check_history(h, rec, Which::C09));
     ctx.floor("health:liquidation_succeeded", 50);
     ctx.floor("health:liquidation_rejected_healthy", 50);
     ctx.floor("health:decrease_left_open", 200);
